@@ -33,6 +33,7 @@ pub fn drain_in_child(case: &EnumCase) -> Report {
     let mut yielded = 0u64;
     let mut extra_nones_ok = true;
     let mut other_drains_agree = true;
+    let mut explicit_scope_agrees = true;
     let outcome = catch(|| {
         let mut it = drive::evaluator(&cfg, &ranges, None).into_iter();
         while let Some(_sd) = it.next() {
@@ -43,6 +44,21 @@ pub fn drain_in_child(case: &EnumCase) -> Report {
         for _ in 0..3 {
             if it.next().is_some() {
                 extra_nones_ok = false;
+            }
+        }
+        // the same drain with the scope given explicitly: the whole line, and from a later position to the terminal
+        if product <= 2000 {
+            {
+                let mut st = stats.borrow_mut();
+                if st.bound > 0 {
+                    st.bound = st.bound.saturating_mul(3);
+                }
+            }
+            let whole = drive::evaluator(&cfg, &ranges, Some(((0, 1), (48, 49)))).into_iter().count() as u64;
+            let tail_from = crate::refmodel::scope::from_linear((cfg.flop[0] as usize * 31 + cfg.flop[1] as usize) % 1176);
+            let tail = drive::evaluator(&cfg, &ranges, Some((tail_from, (48, 49)))).into_iter().count() as u64;
+            if whole != yielded || tail > yielded {
+                explicit_scope_agrees = false;
             }
         }
         // the other ways a caller drains an iterator: size_hint() between calls, collect(), count()
@@ -101,6 +117,9 @@ pub fn drain_in_child(case: &EnumCase) -> Report {
     report.max("max_odometer_index_reached", st.max_player_index as u64);
     if !extra_nones_ok {
         report.count("yield_after_exhaustion", 1);
+    }
+    if !explicit_scope_agrees {
+        report.violate(format!("{}:explicit-scope", sig), format!("{}: with the scope given explicitly as (0,1)..(48,49) the run yields another number of showdowns than with the default scope", case.label), case_json.clone());
     }
     if !other_drains_agree {
         report.count("collect_or_count_disagrees_with_next_loop", 1);
